@@ -284,6 +284,47 @@ def oracle(p):
                 fail("C01:anchor:origin-formula", "origin is not center - R diag(s) (n-1)/2", grid=gd, got=g.origin().tolist(), want=o.tolist())
         except Exception as e:  # noqa
             fail("C01:anchor:raises", f"raises {type(e).__name__}: {str(e)[:120]}", grid=gd)
+        # grids whose STORED size is fractional (downsample of an odd size, Grid(size=floats)): every map must use the
+        # number of samples (the rounded size) consistently
+        try:
+            gf = None
+            if any(n % 2 == 1 and n >= 5 for n in gd["size"]):
+                gf = g.downsample()
+            elif rng.random() < 0.3:
+                gf = Grid(size=[n - rng.choice([0.25, 0.5, 0.75]) for n in gd["size"]], spacing=gd["spacing"], center=gd["center"],
+                          direction=[v for r in gd["direction"] for v in r], align_corners=gd["align_corners"])
+            if gf is not None:
+                counts["fractional_size"] = counts.get("fractional_size", 0) + 1
+                gfd = dict(gd, derived="stored size " + str([float(v) for v in gf._size]))
+                for a, b in itertools.product(AXN, AXN):
+                    x = rand_points(rng, gf, AX[a], (4,), torch.float64)
+                    y = gf.transform_points(x, AX[a], AX[b], decimals=None)
+                    xb = gf.transform_points(y, AX[b], AX[a], decimals=None)
+                    sc = float(x.abs().max()) + 1
+                    if not bool(torch.all((xb - x).abs() <= 2e-4 * sc * 4)):
+                        fail(f"C01:inverse:{a}->{b}:fractional-size", "B->A after A->B is not the identity on a grid with a fractional stored size",
+                             grid=gfd, x=x.tolist(), back=xb.tolist())
+                    yg = gf.transform_points(gf.transform_points(x, AX[a], Axes.GRID, decimals=None), Axes.GRID, AX[b], decimals=None)
+                    scy = float(y.abs().max()) + 1
+                    if not bool(torch.all((yg - y).abs() <= 2e-4 * scy * 4)):
+                        fail(f"C01:compose:{a}->GRID->{b}:fractional-size", "A->B differs from A->GRID->B on a grid with a fractional stored size",
+                             grid=gfd, x=x.tolist())
+                    v = torch.tensor([[rng.uniform(-2, 2) for _ in range(D)] for _ in range(3)], dtype=torch.float64)
+                    x0 = rand_points(rng, gf, AX[a], (3,), torch.float64)
+                    lin = gf.transform_points(x0 + v, AX[a], AX[b], decimals=None) - gf.transform_points(x0, AX[a], AX[b], decimals=None)
+                    tv = gf.transform_vectors(v, AX[a], AX[b])
+                    scv = float(lin.abs().max()) + float(x0.abs().max()) * 1e-2 + 1
+                    if not bool(torch.all((tv - lin).abs() <= 2e-4 * scv * 8)):
+                        fail(f"C01:vectors:{a}->{b}:fractional-size", "transform_vectors is not the linear part of the point map (fractional stored size)",
+                             grid=gfd, v=v.tolist(), got=tv.tolist(), want=lin.tolist())
+                nf = torch.tensor([float(v) for v in gf.size()], dtype=torch.float64)
+                for ac in (True, False):
+                    co = gf.coords(align_corners=ac, dtype=torch.float64)
+                    want = gf.transform_points(gf.coords(normalize=False, dtype=torch.float64), Axes.GRID, Axes.from_align_corners(ac), decimals=None)
+                    if tuple(co.shape) != tuple(want.shape) or not bool(torch.all((co - want).abs() <= 1e-5)):
+                        fail(f"C01:coords:values:{'ac' if ac else 'nac'}:fractional-size", "coords() are not the grid map applied to the integer indices", grid=gfd)
+        except Exception as e:  # noqa
+            fail("C01:fractional-size:raises", f"raises {type(e).__name__}: {str(e)[:120]}", grid=gd)
         # the same anchors for grids CONSTRUCTED from an origin, and the pair (grid, cropped sub-grid): the sub-grid's
         # index i is the base grid's index i + margin (same world lattice)
         counts["origin_route"] = counts.get("origin_route", 0) + 1
@@ -356,6 +397,22 @@ def oracle(p):
             wg = g.cube_to_world(x, decimals=None)
             if not bool(torch.all((w1 - wg).abs() <= 2e-5 * sc)):
                 fail("C01:cube:vs_grid", "grid.cube() maps differ from the grid's own cube maps", grid=gd)
+            # two cubes: every axes pair with to_cube given must go through world (a -> world -> b)
+            cb = h.cube()
+            for a_, b_ in itertools.product((Axes.CUBE, Axes.WORLD), repeat=2):
+                xa = x if a_ is Axes.CUBE else w2
+                got = cu.transform_points(xa, a_, b_, to_cube=cb)
+                wmid = cu.cube_to_world(xa) if a_ is Axes.CUBE else xa
+                want = cb.world_to_cube(wmid) if b_ is Axes.CUBE else wmid
+                if not bool(torch.all((got - want).abs() <= 2e-4 * (float(want.abs().max()) + 1))):
+                    fail(f"C01:cube:two:{a_.name}->{b_.name}", "Cube.transform_points(to_cube=other) is not this cube -> world -> other cube",
+                         grid=gd, grid2=hd, x=xa.tolist(), got=got.tolist(), want=want.tolist())
+                vv = torch.tensor([[rng.uniform(-1, 1) for _ in range(D)] for _ in range(2)], dtype=torch.float64)
+                gv = cu.transform_vectors(vv, a_, b_, to_cube=cb)
+                lin = cu.transform_points(xa[:2] + vv, a_, b_, to_cube=cb) - cu.transform_points(xa[:2], a_, b_, to_cube=cb)
+                if not bool(torch.all((gv - lin).abs() <= 2e-4 * (float(lin.abs().max()) + 1))):
+                    fail(f"C01:cube:two:vectors:{a_.name}->{b_.name}", "Cube.transform_vectors(to_cube=other) is not the linear part of the point map",
+                         grid=gd, grid2=hd)
         except Exception as e:  # noqa
             fail("C01:cube:raises", f"raises {type(e).__name__}: {str(e)[:120]}", grid=gd)
         # convenience helpers with the align_corners keyword in every form (None = grid's flag, True, False)
